@@ -515,3 +515,15 @@ Lemma acountermodel_set S M u ce prems prems' concl :
   acountermodel S M u ce prems concl -> acountermodel S M u ce prems' concl.
 Proof. intros H [Hp Hc]. split; [|exact Hc]. intros p Hp'. apply Hp. apply H. exact Hp'. Qed.
 
+
+(* C09 / C10 over arbitrary structures: premises as a set, added premises *)
+Theorem no_conflict_a L : fsound_ok L -> (fl_hd L = false -> neg_flips_t (s_t (fl_S L)) = true) ->
+  forall t prems concl prems',
+    gcheck L t (trunk (fl_hd L) 0 prems concl) [] = true -> gall_closed t = true ->
+    (forall p, In p prems -> In p prems') ->
+    forall (M : amodel (fl_S L)), amodel_ok L M -> forall u ce, ~ acountermodel (fl_S L) M u ce prems' concl.
+Proof.
+  intros OK Hn t prems concl prems' Hck Hac Hsub M Hm u ce Hcm.
+  apply (argument_sound_a L OK Hn t prems concl Hck Hac M Hm u ce).
+  apply (acountermodel_set _ _ _ _ prems'); assumption.
+Qed.
